@@ -189,3 +189,60 @@ def replay_h_type_refused_early(kind):
         return False, "refused before anything was touched"
     finally:
         shutil.rmtree(d, ignore_errors=True)
+
+
+# ------------------------------------------------------------------------------------------------------
+# a NULL in a column declared free of NULLs (has_nulls=False / a has_nulls list that does not name it): encodings that
+# have no value for "missing" refuse the frame; none of them stores some other value in its place
+NULL_ENCODINGS = ["bool", "bytes", "utf8", "int"]
+
+
+def _null_cells(enc):
+    return {"bool": [True, None, False], "bytes": [b"a", None, b"c"], "utf8": ["a", None, "c"],
+            "int": [1, None, 3]}[enc]
+
+
+def _required_null_outcome(ienc):
+    enc = NULL_ENCODINGS[ienc]
+    ser = pd.Series(_null_cells(enc), dtype=object, name="x")
+    se, _ = writer.find_type(ser, object_encoding=enc)
+    se.repetition_type = 0          # REQUIRED: write_column hands the column to the encoder with its NULLs in place
+    try:
+        writer.encode_plain(ser, se)
+    except Exception:
+        return True
+    return False
+
+
+def h_required_null_refused(ienc: int) -> bool:
+    """
+    pre: 0 <= ienc <= 3
+    post: __return__
+    """
+    ienc = _pick(ienc, 0, 3)
+    from crosshair.tracers import NoTracing
+    with NoTracing():
+        return _required_null_outcome(ienc)
+
+
+def replay_h_required_null_refused(ienc):
+    import os, shutil, tempfile
+    import fastparquet
+    enc = NULL_ENCODINGS[ienc]
+    d = tempfile.mkdtemp(prefix="c18-")
+    try:
+        for scheme in ("simple", "hive"):
+            fn = os.path.join(d, "ds-" + scheme)
+            first = pd.DataFrame({"x": pd.Series([c for c in _null_cells(enc) if c is not None], dtype=object)})
+            fastparquet.write(fn, first, file_scheme=scheme, has_nulls=False, object_encoding=enc)
+            new = pd.DataFrame({"x": pd.Series(_null_cells(enc), dtype=object)})
+            try:
+                fastparquet.write(fn, new, file_scheme=scheme, has_nulls=False, object_encoding=enc, append=True)
+            except Exception:
+                continue
+            out = fastparquet.ParquetFile(fn).to_pandas()["x"].tolist()
+            return True, ("a frame with a missing value in a %s column declared free of NULLs is accepted by an append to "
+                          "a %s dataset; the column now reads %r" % (enc, scheme, out))
+        return False, "refused"
+    finally:
+        shutil.rmtree(d, ignore_errors=True)
